@@ -72,6 +72,16 @@ def _wrapper(spec: dict[str, Any]) -> Any:
     raise ValueError(k)
 
 
+def _heuristic(mode: str, word: str) -> bool:
+    if mode == "semi":
+        return word.endswith((";", ".", "?", "!"))
+    if mode == "never":
+        return False
+    if mode == "colon":
+        return word.endswith((":", "."))
+    return len(word) > 4 and word.endswith(".")
+
+
 # user-supplied callables (every public parameter of the wrapper factories is part of "options")
 def _wide_len(s: str) -> int:
     return sum(2 if ord(ch) > 0x2E7F else 1 for ch in s)
@@ -117,6 +127,13 @@ def exec_call(c: dict[str, Any]) -> str:
     if api == "wrap_paragraph":
         return flowmark.wrap_paragraph(c["text"], **kw)
     if api == "sentences":
+        if "heuristic" in kw:
+            # a per-call temporary callable (functools.partial): freed after the call, so a later
+            # temporary may live at the same address
+            import functools
+
+            kw["heuristic"] = functools.partial(_heuristic, kw["heuristic"])
+            return "\x00".join(flowmark.split_sentences_regex(c["text"], **kw)) + "\x01" + flowmark.first_sentence(c["text"], heuristic=functools.partial(_heuristic, c["kw"]["heuristic"])) + "\x01" + "\x00".join(flowmark.first_sentences(c["text"], 2, heuristic=functools.partial(_heuristic, c["kw"]["heuristic"])) if hasattr(flowmark, "first_sentences") else [])
         return "\x00".join(flowmark.split_sentences_regex(c["text"], **kw)) + "\x01" + flowmark.first_sentence(c["text"]) + "\x01" + "\x00".join(flowmark.wrap_paragraph_lines(c["text"], width=kw.get("min_length", 15) + 25))
     raise ValueError(api)
 
@@ -172,7 +189,7 @@ def pristine_outcome(c: dict[str, Any]) -> tuple[str, str]:
 # ---------------------------------------------------------------------------------------------
 # workload generation
 
-APIS = ["reformat_text"] * 8 + ["fill_markdown"] * 4 + ["fill_text"] * 2 + ["convert"] * 2 + ["reuse"] + ["wrap_paragraph"] + ["sentences"]
+APIS = ["reformat_text"] * 8 + ["fill_markdown"] * 4 + ["fill_text"] * 2 + ["convert"] * 2 + ["reuse"] + ["wrap_paragraph"] + ["sentences"] * 2
 WRAPS = ["none", "wrap", "wrap_full", "wrap_indent", "indent_only", "hanging_indent", "markdown_item"]
 
 
@@ -230,7 +247,10 @@ def gen_call(rng: Any, text: str | None = None, base: dict[str, Any] | None = No
     if api == "sentences":
         # sentence helpers on a paragraph of a shared document (same text as the formatting calls see)
         paras = [p for p in text.split("\n\n") if p.strip()]
-        return {"api": api, "text": rng.choice(paras) if paras else text, "kw": {"min_length": rng.choice([0, 15, 40])}}
+        kws: dict[str, Any] = {"min_length": rng.choice([0, 15, 40])}
+        if rng.random() < 0.5:
+            kws["heuristic"] = rng.choice(["semi", "never", "colon", "long"])
+        return {"api": api, "text": rng.choice(paras) if paras else text, "kw": kws}
     para = corpus.paragraph(rng, 1, 4, raw_breaks=False)
     if rng.random() < 0.5:
         paras = [p for p in text.split("\n\n") if p.strip() and "\n" not in p]
@@ -439,6 +459,12 @@ def gen_case(run_seed: int, tier: str, index: int | None = None) -> dict[str, An
                 text = w.choice(pool) if w.random() < 0.75 else None
                 calls.append(gen_call(w, text, base))
                 total_calls += 1
+                last = calls[-1]
+                if last["api"] == "sentences" and "heuristic" in last["kw"] and w.random() < 0.8:
+                    # the same text under a different value of the same parameter, right afterwards
+                    other = w.choice([h for h in ("semi", "never", "colon", "long") if h != last["kw"]["heuristic"]])
+                    calls.append({"api": "sentences", "text": last["text"], "kw": dict(last["kw"], heuristic=other)})
+                    total_calls += 1
             if calls:
                 threads.append(calls)
         if threads:
